@@ -22,26 +22,30 @@
 (* specification follows the repaired tree; DEV_F4 / DEV_F6 re-enable two  *)
 (* pinned behaviours (DESIGN.md section 7).                                *)
 (***************************************************************************)
-EXTENDS Naturals, Integers, Sequences, FiniteSets, TLC
+EXTENDS Naturals, Integers, Sequences, FiniteSets, SequencesExt, TLC
 
 CONSTANTS
   Script,        \* [process name -> sequence of operations [m, tag]]
+  Script2,       \* the same for the processes of the second generation (started on the client that AdoptSession returns)
+  MaxStops,      \* process stops (each followed by AdoptSession on the same Persistence), at most
+  MaxDamage,     \* records removed or altered while the process is down, at most
   AMax, EMax,    \* Config.AtLeastOnceMax / ExactlyOnceMax
   MaxConns,      \* dials that succeed, at most
   DialFails, WriteFails, ReadFails, StoreFails,   \* fault budgets
   MaxCalls,      \* ReadSlices invocations, at most (bounds the model)
   InMsgs,        \* sequence of [qos, tag]: what the broker publishes to the client, in this order
   RecordHist,    \* FALSE in the liveness configurations (hist would make every state distinct)
-  DEV_F4, DEV_F6
+  DEV_F4, DEV_F6, DEV_F2, DEV_F10, DEV_F19, DEV_F25
 
 IdMod  == 16384
 Space(l) == IF l = 1 THEN 32768 ELSE 49152
 PENDING == -1   DOWN == -2   HELD == -3   CLOSED == -4   NILCONN == 0
 MarkFlag == 65536
 
-Writers == DOMAIN Script
+Writers == DOMAIN Script \cup DOMAIN Script2
+Ops(p)  == IF p \in DOMAIN Script THEN Script[p] ELSE Script2[p]
 Procs   == {"rd", "abort", "term1", "term2"} \cup Writers
-Max(l)  == IF l = 1 THEN AMax ELSE EMax
+MaxQ(l) == IF l = 1 THEN AMax ELSE EMax
 LevelOf(m) == CASE m \in {"PublishAtLeastOnce", "PublishAtLeastOnceRetained"} -> 1
                 [] m \in {"PublishExactlyOnce", "PublishExactlyOnceRetained"} -> 2
                 [] OTHER -> 0
@@ -57,7 +61,7 @@ Put(f, k, v) == (k :> v) @@ f
 Del(f, k) == [x \in DOMAIN f \ {k} |-> f[x]]
 
 St0 ==
-  [pc |-> [p \in Procs |-> IF p = "rd" \/ (p \in Writers /\ Script[p] # <<>>) THEN "call" ELSE "idle"],
+  [pc |-> [p \in Procs |-> IF p = "rd" \/ (p \in DOMAIN Script /\ Script[p] # <<>>) THEN "call" ELSE "idle"],
    loc |-> [p \in Procs |-> Loc0],
    connSem |-> NILCONN, writeSem |-> PENDING, seqSem |-> [l \in 1..2 |-> "free"],
    acceptN |-> [l \in 1..2 |-> 0], submitN |-> [l \in 1..2 |-> 0],
@@ -67,10 +71,14 @@ St0 ==
    ctxDone |-> FALSE, online |-> FALSE, offline |-> TRUE,
    pingSlot |-> "",                          \* process whose Ping waits, "" = free
    pong |-> [p \in Writers |-> "none"],      \* what a waiting Ping received on its done channel
+   pingSent |-> [p \in Writers |-> FALSE],   \* the PINGREQ of the Ping in progress was written
+   strayPong |-> FALSE,                      \* a PINGRESP was handed to a Ping whose PINGREQ was not written yet
    subs |-> <<>>,                            \* [packet identifier -> requesting process] pending SUBSCRIBE transactions
    subdone |-> [p \in Writers |-> "none"],   \* what a waiting Subscribe received on its done channel
    utxN |-> 0,                               \* unorderedTxs.n
    store |-> <<>>, conns |-> <<>>,
+   rseq |-> 0,                               \* ruggedPersistence.seqNo: every Save stores the next number with the record
+   gen |-> 1, stops |-> 0, warn |-> 0, damaged |-> 0,   \* generation of the client; stops so far; warnings of the last AdoptSession
    broker |-> [session |-> FALSE, awaiting |-> {}, delivered |-> <<>>,
                out |-> <<>>,       \* deliveries to the client: [id, qos, tag, state] with state sent / rec / done
                nextIn |-> 1],
@@ -107,7 +115,7 @@ PayS(s, o) == IF o = "err" THEN Spend(s, "store") ELSE s
 \* an API call of a scripted process returns: on to its next operation
 NextOp(s, p, m, e) ==
   LET r == RetP(s, p, m, e) IN
-  IF s.loc[p].op < Len(Script[p]) THEN [G(r, p, "call") EXCEPT !.loc[p].op = @ + 1] ELSE G(r, p, "idle")
+  IF s.loc[p].op < Len(Ops(p)) THEN [G(r, p, "call") EXCEPT !.loc[p].op = @ + 1] ELSE G(r, p, "idle")
 
 (* ----------------------------------------------------------------------- *)
 (* The read routine                                                        *)
@@ -231,8 +239,8 @@ RdMoves(s) ==
          {Mv(G(s1, "rd", IF L.inline THEN Dispatch(s1, s1.inbuf) ELSE FlushStart(s1)), "k.online", "ok")}
     (* --- owed acknowledgement ------------------------------------------- *)
     [] at = "f.save" ->  \* Save of the inbound marker before PUBREC goes out
-         {Mv(G([s EXCEPT !.store = Put(@, MarkFlag + s.pack.id, [kind |-> "MARK", tag |-> 0])], "rd", "wn.take"), "store.Save", "ok")}
-         \cup (IF s.budget.store > 0 THEN {Mv(RdReturn(Spend(s, "store"), "store"), "store.Save", "err")} ELSE {})
+         {Mv(G([s EXCEPT !.store = Put(@, MarkFlag + s.pack.id, [kind |-> "MARK", tag |-> 0, sseq |-> s.rseq + 1]), !.rseq = @ + 1], "rd", "wn.take"), "store.Save", "ok")}
+         \cup (IF s.budget.store > 0 THEN {Mv(RdReturn([Spend(s, "store") EXCEPT !.rseq = @ + 1], "store"), "store.Save", "err")} ELSE {})
     (* --- the read routine's own writes (writeBuffersNoWait; pinned: lockWrite, F4) --- *)
     [] at = "wn.take" ->  \* conn, ok := <-c.writeSem ; hook wn.got.  This label is not a gate: it is entered and left in one move
          {}
@@ -270,9 +278,10 @@ RdMoves(s) ==
          \cup (IF s.budget.store > 0 THEN {Mv(ToOff(Spend(s, "store"), "store"), "store.Delete", "err")} ELSE {})
     [] at = "c.save" ->  \* PUBREC: Save PUBREL, Received++, write PUBREL
          LET p == s.inbuf[1] IN
-         {Mv([G(s, "rd", "wn.take") EXCEPT !.store = Put(@, p.id, [kind |-> "REL", tag |-> s.store[p.id].tag]), !.received = @ + 1,
+         {Mv([G(s, "rd", "wn.take") EXCEPT !.store = Put(@, p.id, [kind |-> "REL", tag |-> s.store[p.id].tag, sseq |-> s.rseq + 1]), !.rseq = @ + 1,
+                                            !.received = @ + 1,
                                             !.pack = Pk("PUBREL", p.id, 0, FALSE, 0), !.loc["rd"].ctx = "pubrel"], "store.Save", "ok")}
-         \cup (IF s.budget.store > 0 THEN {Mv(ToOff(Spend(s, "store"), "store"), "store.Save", "err")} ELSE {})
+         \cup (IF s.budget.store > 0 THEN {Mv(ToOff([Spend(s, "store") EXCEPT !.rseq = @ + 1], "store"), "store.Save", "err")} ELSE {})
     [] at = "m.del" ->  \* PUBCOMP: Delete, Completed++, close(<-queue)
          LET p == s.inbuf[1]  tag == s.queue[2][1] IN
          {Mv(NextPacket(ExClose([s EXCEPT !.store = Del(@, p.id), !.completed = @ + 1, !.queue[2] = Tail(@)], tag)), "store.Delete", "ok")}
@@ -282,7 +291,7 @@ RdMoves(s) ==
          {Mv([G(s, "rd", "wn.take") EXCEPT !.store = Del(@, MarkFlag + p.id), !.pack = Pk("PUBCOMP", p.id, 0, FALSE, 0),
                                             !.loc["rd"].ctx = "pubcomp"], "store.Delete", "ok")}
          \cup (IF s.budget.store > 0 THEN {Mv(ToOff(Spend(s, "store"), "store"), "store.Delete", "err")} ELSE {})
-    [] at = "pong.slot" -> {Mv(NextPacket([s EXCEPT !.pong[L.who] = "ok"]), "pong.slot", "ok")}   \* close(ack)
+    [] at = "pong.slot" -> {Mv(NextPacket([s EXCEPT !.pong[L.who] = "ok", !.strayPong = @ \/ ~s.pingSent[L.who]]), "pong.slot", "ok")}   \* close(ack)
     (* --- toOffline --------------------------------------------------------- *)
     [] at = "off.lock" ->
          IF L.val = CLOSED THEN {Mv(G(s, "rd", "off.end"), "off.lock", "ok")}
@@ -379,19 +388,19 @@ TermWake(s) ==
 (* Persisted publishers: PublishAtLeastOnce / PublishExactlyOnce           *)
 
 PubMoves(s, p) ==
-  LET L == s.loc[p]  op == Script[p][L.op]  l == LevelOf(op.m)  at == s.pc[p]  tag == op.tag IN
+  LET L == s.loc[p]  op == Ops(p)[L.op]  l == LevelOf(op.m)  at == s.pc[p]  tag == op.tag IN
   CASE at = "call" ->     \* seq, ok := <-out.seqSem
          IF s.seqSem[l] = "held" THEN {}
          ELSE IF s.seqSem[l] = "closed" \/ s.ctxDone THEN {Mv(NextOp(s, p, op.m, "closed"), op.m, "ok")}
          ELSE {Mv([G(s, p, "q.seq") EXCEPT !.seqSem[l] = "held", !.loc[p].err = "", !.loc[p].backlog = s.submitN[l] < s.acceptN[l]], op.m, "ok")}
     [] at = "q.seq" ->
-         IF Len(s.queue[l]) >= Max(l) THEN {Mv([G(s, p, "q.unseq") EXCEPT !.seqSem[l] = "free", !.loc[p].err = "max"], "q.seq", "ok")}
+         IF Len(s.queue[l]) >= MaxQ(l) THEN {Mv([G(s, p, "q.unseq") EXCEPT !.seqSem[l] = "free", !.loc[p].err = "max"], "q.seq", "ok")}
          ELSE {Mv(G(s, p, "q.save"), "q.seq", "ok")}
     [] at = "q.save" ->
          LET key == KeyOf(l, s.acceptN[l]) IN
-         {Mv([G(s, p, "q.saved") EXCEPT !.store = Put(@, key, [kind |-> "PUB", tag |-> tag]), !.queue[l] = Append(@, tag),
+         {Mv([G(s, p, "q.saved") EXCEPT !.store = Put(@, key, [kind |-> "PUB", tag |-> tag, sseq |-> s.rseq + 1]), !.rseq = @ + 1, !.queue[l] = Append(@, tag),
                                          !.acceptN[l] = @ + 1, !.exch = Put(@, tag, [errs |-> <<>>, closed |-> FALSE])], "store.Save", "ok")}
-         \cup (IF s.budget.store > 0 THEN {Mv([G(Spend(s, "store"), p, "q.unseq") EXCEPT !.seqSem[l] = "free", !.loc[p].err = "store"], "store.Save", "err")} ELSE {})
+         \cup (IF s.budget.store > 0 THEN {Mv([G(Spend(s, "store"), p, "q.unseq") EXCEPT !.seqSem[l] = "free", !.loc[p].err = "store", !.rseq = @ + 1], "store.Save", "err")} ELSE {})
     [] at = "q.saved" ->
          IF L.backlog THEN {Mv([G(ExErr(s, tag, "down"), p, "q.unseq") EXCEPT !.seqSem[l] = "free"], "q.saved", "ok")}
          ELSE IF s.writeSem = HELD THEN {}
@@ -431,16 +440,22 @@ ReqPacket(s, p, op) ==
 
 \* the request failed before or during submission: release what it held, return
 ReqFail(s, p, op, e) ==
-  CASE op.m = "Ping" -> [G(IF s.pingSlot = p THEN [s EXCEPT !.pingSlot = ""] ELSE s, p, "ping.clean") EXCEPT !.loc[p].err = e]
+  CASE op.m = "Ping" ->
+         \* repaired tree: the callback is installed under the write lock, so before that there is nothing to release;
+         \* after a failed write the read routine releases it (toOffline), as for any connection loss
+         IF ~DEV_F25 THEN NextOp(s, p, op.m, e)
+         ELSE [G(IF s.pingSlot = p THEN [s EXCEPT !.pingSlot = ""] ELSE s, p, "ping.clean") EXCEPT !.loc[p].err = e]
     [] op.m = "Subscribe" -> NextOp([s EXCEPT !.subs = Del(@, s.loc[p].seqNo)], p, op.m, e)
     [] OTHER -> NextOp(s, p, op.m, e)
 
 ReqMoves(s, p) ==
-  LET L == s.loc[p]  op == Script[p][L.op]  at == s.pc[p] IN
+  LET L == s.loc[p]  op == Ops(p)[L.op]  at == s.pc[p] IN
   CASE at = "call" ->
          IF op.m = "Ping" THEN
            IF s.ctxDone THEN {Mv(NextOp(s, p, op.m, "closed"), op.m, "ok")}
-           ELSE IF s.pingSlot = "" THEN {Mv([G(s, p, "ping.slot") EXCEPT !.pingSlot = p, !.pong[p] = "none"], op.m, "ok")}
+           ELSE IF ~DEV_F25 THEN {Mv(x, op.m, "ok") : x \in LwSelect([s EXCEPT !.pong[p] = "none", !.pingSent[p] = FALSE], p)}
+           \* pinned tree (F25): the callback was installed before lockWrite
+           ELSE IF s.pingSlot = "" THEN {Mv([G(s, p, "ping.slot") EXCEPT !.pingSlot = p, !.pong[p] = "none", !.pingSent[p] = FALSE], op.m, "ok")}
            ELSE {Mv(G(s, p, "ping.max"), op.m, "ok")}
          ELSE IF op.m = "Subscribe" THEN
            \* startTx, then lockWrite
@@ -448,12 +463,17 @@ ReqMoves(s, p) ==
                s1 == [s EXCEPT !.utxN = @ + 1, !.subs = Put(@, id, p), !.subdone[p] = "none", !.loc[p].seqNo = id]
            IN {Mv(x, op.m, "ok") : x \in LwSelect(s1, p)}
          ELSE {Mv(x, op.m, "ok") : x \in LwSelect(s, p)}
-    [] at = "ping.slot" -> {Mv(x, "ping.slot", "ok") : x \in LwSelect(s, p)}
+    [] at = "ping.slot" -> IF DEV_F25 THEN {Mv(x, "ping.slot", "ok") : x \in LwSelect(s, p)}
+                           ELSE {Mv(G(s, p, "lw.write"), "ping.slot", "ok")}   \* holds the write lock
     [] at = "ping.max" -> {Mv(NextOp(s, p, op.m, "max"), "ping.max", "ok")}
     [] at = "lw.got" ->
          IF L.val = CLOSED THEN {Mv(ReqFail(s, p, op, "closed"), "lw.got", "ok")}
          ELSE IF L.val = DOWN THEN {Mv(ReqFail([s EXCEPT !.writeSem = DOWN], p, op, "down"), "lw.got", "ok")}
          ELSE IF L.val = PENDING THEN {Mv(G([s EXCEPT !.writeSem = PENDING], p, "lw.wait"), "lw.got", "ok")}
+         ELSE IF op.m = "Ping" /\ ~DEV_F25 THEN
+           \* install the callback with the write lock held, or give the lock back: ErrMax
+           IF s.pingSlot = "" THEN {Mv([G(s, p, "ping.slot") EXCEPT !.pingSlot = p], "lw.got", "ok")}
+           ELSE {Mv([G(s, p, "ping.max") EXCEPT !.writeSem = L.val], "lw.got", "ok")}
          ELSE {Mv(G(s, p, IF op.m = "Publish" THEN "lw.write1" ELSE "lw.write"), "lw.got", "ok")}
     [] at = "lw.wait" ->   \* select { ctx.Done ; Online ; 20 ms tick }
          \* with the context cancelled Go chooses among the ready cases: ctx.Done, and the ticker once 20 ms have passed
@@ -467,7 +487,8 @@ ReqMoves(s, p) ==
           : o \in WriteOutcomes(s, w)}
     [] at = "lw.write" ->
          LET w == L.val IN
-         {IF o = "ok" THEN Mv([G(s, p, "w.ok") EXCEPT !.conns[w].c2b = Append(@, ReqPacket(s, p, op)), !.conns[w].tail = FALSE, !.writeSem = w], "conn.Write", o)
+         {IF o = "ok" THEN Mv([G(s, p, "w.ok") EXCEPT !.conns[w].c2b = Append(@, ReqPacket(s, p, op)), !.conns[w].tail = FALSE, !.writeSem = w,
+                                                     !.pingSent[p] = (op.m = "Ping")], "conn.Write", o)
           ELSE Mv([G(CloseC(PayW(s, w, o), w), p, "w.fail") EXCEPT !.writeSem = PENDING], "conn.Write", o)
           : o \in WriteOutcomes(s, w)}
     [] at = "w.fail" -> {Mv(ReqFail(s, p, op, "submit"), "w.fail", "ok")}
@@ -481,8 +502,8 @@ ReqMoves(s, p) ==
 
 \* a waiting request wakes up on its own when its done channel is served (hook ping.done / sub.done follows)
 ReqWake(s) ==
-  {G(s, p, IF Script[p][s.loc[p].op].m = "Ping" THEN "ping.done" ELSE "sub.done")
-   : p \in {q \in Writers : s.pc[q] = "req.wait" /\ (IF Script[q][s.loc[q].op].m = "Ping" THEN s.pong[q] # "none" ELSE s.subdone[q] # "none")}}
+  {G(s, p, IF Ops(p)[s.loc[p].op].m = "Ping" THEN "ping.done" ELSE "sub.done")
+   : p \in {q \in Writers : s.pc[q] = "req.wait" /\ (IF Ops(q)[s.loc[q].op].m = "Ping" THEN s.pong[q] # "none" ELSE s.subdone[q] # "none")}}
 
 (* ----------------------------------------------------------------------- *)
 (* Close                                                                   *)
@@ -576,31 +597,112 @@ PublishMoves(s) ==
             c |-> c, pk |-> pk]}
 
 (* ----------------------------------------------------------------------- *)
+(* The process stops; AdoptSession (request.go) rebuilds a client from the *)
+(* Persistence.  Everything but the Persistence, the network and the       *)
+(* broker dies with the process.                                           *)
+
+IdOf(k) == k % IdMod
+IsMark(k) == k >= MarkFlag
+Succ(p, n) == IdOf(n) - IdOf(p) = 1 \/ (IdOf(n) = 0 /\ IdOf(p) = IdMod - 1)
+BySseq(S, K) == SortSeq(SetToSeq(K), LAMBDA a, b : S[a].sseq < S[b].sseq)
+\* cleanSequence: the longest contiguous tail, one warning per cut
+RECURSIVE CleanFrom(_, _, _)
+CleanFrom(q, i, w) == IF i > Len(q) THEN [keys |-> q, warn |-> w]
+                      ELSE IF Succ(q[i - 1], q[i]) THEN CleanFrom(q, i + 1, w)
+                      ELSE CleanFrom(SubSeq(q, i, Len(q)), 2, w + 1)
+Clean(q) == IF Len(q) < 2 THEN [keys |-> q, warn |-> 0] ELSE CleanFrom(q, 2, 0)
+MaxOf(S) == IF S = {} THEN 0 ELSE CHOOSE x \in S : \A y \in S : y <= x
+
+Adopt(S) ==
+  LET out(kind, l) == {k \in DOMAIN S : ~IsMark(k) /\ S[k].kind = kind /\ k \div IdMod = Space(l) \div IdMod}
+      p1 == Clean(BySseq(S, out("PUB", 1)))
+      p2 == Clean(BySseq(S, out("PUB", 2)))
+      r0 == Clean(BySseq(S, {k \in DOMAIN S : ~IsMark(k) /\ S[k].kind = "REL"}))
+      gap == p2.keys # <<>> /\ r0.keys # <<>> /\ ~Succ(r0.keys[Len(r0.keys)], p2.keys[1])
+      rels == IF gap /\ ~DEV_F10 THEN <<>> ELSE r0.keys     \* pinned tree: the gap was reported, the PUBRELs kept (F10)
+      acked == IF p1.keys = <<>> THEN 0 ELSE IdOf(p1.keys[1])
+      last1 == IF p1.keys = <<>> THEN 0 ELSE IdOf(p1.keys[Len(p1.keys)])
+      acc1 == IF p1.keys = <<>> THEN 0 ELSE (IF last1 < acked THEN last1 + IdMod ELSE last1) + 1
+      completed == IF rels # <<>> THEN IdOf(rels[1]) ELSE IF p2.keys # <<>> THEN IdOf(p2.keys[1]) ELSE 0
+      received == IF rels = <<>> THEN completed
+                  ELSE LET r == IdOf(rels[Len(rels)]) + 1 IN IF r < completed THEN r + IdMod ELSE r
+      last2 == IF p2.keys = <<>> THEN 0 ELSE IdOf(p2.keys[Len(p2.keys)])
+      acc2 == IF p2.keys # <<>> THEN (IF last2 < received THEN last2 + IdMod ELSE last2) + 1
+              ELSE IF rels # <<>> /\ DEV_F19 THEN 0          \* pinned tree: acceptN stayed 0 with only PUBRELs stored (F19)
+              ELSE received
+      tags(q) == [i \in DOMAIN q |-> S[q[i]].tag]
+  IN [acked |-> acked, acceptN |-> <<acc1, acc2>>, completed |-> completed, received |-> received,
+      queue |-> <<tags(p1.keys), tags(rels) \o tags(p2.keys)>>,
+      nwarn |-> p1.warn + p2.warn + r0.warn + (IF gap THEN 1 ELSE 0),
+      rseq |-> IF DEV_F2 THEN 0 ELSE MaxOf({S[k].sseq : k \in {x \in DOMAIN S : ~IsMark(x)}})]   \* pinned tree restarted at 0 (F2)
+
+\* records lost or altered while the process is down: a removed record is simply gone, an altered one fails its
+\* checksum, is deleted by AdoptSession and reported
+Damages(s) ==
+  IF s.damaged >= MaxDamage THEN {[store |-> s.store, n |-> 0, w |-> 0, keys |-> <<>>, how |-> "none"]}
+  ELSE {[store |-> s.store, n |-> 0, w |-> 0, keys |-> <<>>, how |-> "none"]} \cup
+       {[store |-> Del(s.store, k), n |-> 1, w |-> IF h = "flip" THEN 1 ELSE 0, keys |-> <<k>>, how |-> h]
+        : k \in {x \in DOMAIN s.store : ~IsMark(x)}, h \in {"remove", "flip"}}
+
+Restarts(s) ==
+  IF s.stops >= MaxStops THEN {}
+  ELSE {LET a == Adopt(d.store) IN
+        [s |-> [St0 EXCEPT !.store = d.store, !.rseq = a.rseq, !.broker = s.broker, !.exch = s.exch, !.rets = s.rets,
+                           !.calls = s.calls, !.budget = s.budget, !.gen = s.gen + 1, !.stops = s.stops + 1,
+                           !.warn = a.nwarn, !.damaged = s.damaged + d.n,
+                           !.conns = [i \in DOMAIN s.conns |-> [s.conns[i] EXCEPT !.dead = TRUE]],
+                           !.acked = a.acked, !.acceptN = a.acceptN, !.submitN = a.acceptN,
+                           !.completed = a.completed, !.received = a.received, !.queue = a.queue,
+                           !.pc = [p \in Procs |-> IF p = "rd" \/ (s.gen = 1 /\ p \in DOMAIN Script2 /\ Script2[p] # <<>>)
+                                                   THEN "call" ELSE "idle"]],
+         damage |-> d.keys, how |-> d.how, nwarn |-> a.nwarn + d.w]
+        : d \in Damages(s)}
+
+(* ----------------------------------------------------------------------- *)
 
 MovesOf(s, p) ==
   IF p = "rd" THEN RdMoves(s)
   ELSE IF p = "abort" THEN AbortMoves(s)
   ELSE IF p \in {"term1", "term2"} THEN TermMoves(s, p)
   ELSE IF s.pc[p] = "idle" THEN {}
-  ELSE IF Script[p][s.loc[p].op].m = "Close" THEN CloseMoves(s, p)
-  ELSE IF Script[p][s.loc[p].op].m \in {"Publish", "Ping", "Subscribe"} THEN ReqMoves(s, p)
+  ELSE IF Ops(p)[s.loc[p].op].m = "Close" THEN CloseMoves(s, p)
+  ELSE IF Ops(p)[s.loc[p].op].m \in {"Publish", "Ping", "Subscribe"} THEN ReqMoves(s, p)
   ELSE PubMoves(s, p)
 
 \* a move of p, settled to the next gate of the read routine where needed
 Settled(mv) == LET r == SettleAll(mv.s) IN IF r.ok THEN {[mv EXCEPT !.s = AbortWake(r.s)]} ELSE {}
+
+\* The scalar projection that VerifSnapshot takes of the real client (verif_on.go); the replay compares it after every step.
+SemName(v) == CASE v = PENDING -> "pending" [] v = DOWN -> "down" [] v = HELD -> "held" [] v = CLOSED -> "closed"
+                [] v = NILCONN -> "nil" [] OTHER -> "conn"
+SeqVal(s, l, v) == IF s.seqSem[l] = "held" THEN -1 ELSE IF s.seqSem[l] = "closed" THEN -2 ELSE v
+Proj(s) == [acked |-> s.acked, received |-> s.received, completed |-> s.completed,
+            accept1 |-> SeqVal(s, 1, s.acceptN[1]), accept2 |-> SeqVal(s, 2, s.acceptN[2]),
+            submit1 |-> SeqVal(s, 1, s.submitN[1]), submit2 |-> SeqVal(s, 2, s.submitN[2]),
+            q1 |-> Len(s.queue[1]), q2 |-> Len(s.queue[2]), pack |-> (s.pack # NoPk \/ s.pc["rd"] = "c.save"),   \* onPUBREC composes the PUBREL in pendingAck before the Save
+            wsem |-> SemName(s.writeSem), csem |-> SemName(s.connSem),
+            ping |-> IF s.pingSlot = "" THEN 0 ELSE 1, utx |-> Cardinality(DOMAIN s.subs),
+            online |-> s.online, offline |-> s.offline]
 
 Init == st = St0 /\ hist = <<>>
 
 ProcStep(p) ==
   \E mv \in MovesOf(st, p) : \E m2 \in Settled(mv) :
      /\ st' = m2.s
-     /\ hist' = IF RecordHist THEN Append(hist, [p |-> p, at |-> m2.at, o |-> m2.o]) ELSE hist
+     /\ hist' = IF RecordHist THEN Append(hist, [p |-> p, at |-> m2.at, o |-> m2.o, x |-> Proj(m2.s)]) ELSE hist
 Wake == \E s2 \in TermWake(st) \cup ReqWake(st) : st' = s2 /\ UNCHANGED hist
 BrokerStep == \E b \in BrokerMoves(st) : st' = b.s /\ hist' = IF RecordHist THEN Append(hist, [env |-> "brecv", c |-> b.c, respond |-> TRUE]) ELSE hist
 
 PublishStep == \E b \in PublishMoves(st) : st' = b.s /\ hist' = IF RecordHist THEN Append(hist, [env |-> "bsend", c |-> b.c, pkt |-> b.pk]) ELSE hist
 
-Next == (\E p \in Procs : ProcStep(p)) \/ Wake \/ BrokerStep \/ PublishStep
+RestartStep == \E r \in Restarts(st) :
+   /\ st' = r.s
+   /\ hist' = IF RecordHist
+              THEN hist \o <<[env |-> "stop"]>> \o [i \in DOMAIN r.damage |-> [env |-> "damage", key |-> r.damage[i], how |-> r.how]]
+                        \o <<[env |-> "adopt", gen |-> r.s.gen, nwarn |-> r.nwarn, x |-> Proj(r.s)]>>
+              ELSE hist
+
+Next == (\E p \in Procs : ProcStep(p)) \/ Wake \/ BrokerStep \/ PublishStep \/ RestartStep
 Spec == Init /\ [][Next]_vars
 
 (* Fairness: every goroutine that can move eventually does (strongly fair: Go hands a channel value to a     *)
@@ -608,7 +710,7 @@ Spec == Init /\ [][Next]_vars
 Fairness == (\A p \in Procs : SF_vars(ProcStep(p))) /\ WF_vars(Wake) /\ WF_vars(BrokerStep) /\ WF_vars(PublishStep)
 LiveSpec == Spec /\ Fairness
 
-Closers == {p \in Writers : \E i \in DOMAIN Script[p] : Script[p][i].m = "Close"}
+Closers == {p \in Writers : \E i \in DOMAIN Ops(p) : Ops(p)[i].m = "Close"}
 Budgeted == st.calls < MaxCalls      \* the application still invokes ReadSlices
 \* C10: the read routine always gets back to a point where it waits for input, for its next invocation, or has ended
 C10_ReaderProgress == []<>(st.pc["rd"] \in {"call", "r.read", "idle", "t.join"})
@@ -629,21 +731,49 @@ AllPk(c) == st.conns[c].c2b
 PubIds(c, l) == SelectSeq(AllPk(c), LAMBDA p : p.t = "PUBLISH" /\ p.qos = l)
 Ascending(seq) == \A i \in 1..(Len(seq) - 1) : ((seq[i + 1].id - seq[i].id + IdMod) % IdMod) \in 1..IdMod - 1
 
+\* (Not under damage: when the only record of an exactly-once transfer is lost while the broker still awaits its
+\* PUBREL, the adopted client starts its sequence anew, reuses the identifier, and the broker takes the new message
+\* for the retransmission.  No listed property promises otherwise; DESIGN.md, observation O1.)
 C01_NoForgedCompletion ==   \* an exchange closes only after the broker's final acknowledgement was produced for it
+  st.damaged = 0 =>
   \A t \in DOMAIN st.exch : st.exch[t].closed => \E i \in DOMAIN st.broker.delivered : st.broker.delivered[i] = t
 C03_ExactlyOnceDelivery ==  \* no exactly-once message is forwarded twice
   \A i, j \in DOMAIN st.broker.delivered :
      (i # j /\ st.broker.delivered[i] = st.broker.delivered[j]) =>
-        \E k \in DOMAIN Script : \E n \in DOMAIN Script[k] : Script[k][n].tag = st.broker.delivered[i] /\ LevelOf(Script[k][n].m) = 1
+        \E k \in Writers : \E n \in DOMAIN Ops(k) : Ops(k)[n].tag = st.broker.delivered[i] /\ LevelOf(Ops(k)[n].m) = 1
 C05_WireOrderIsIdOrder == \A c \in DOMAIN st.conns : Ascending(PubIds(c, 1)) /\ Ascending(PubIds(c, 2))
-C08_WholePackets == \A c \in DOMAIN st.conns : st.conns[c].tail => \E p \in Writers : st.pc[p] \in {"wn.write2", "w.fail"}
+\* C08: a packet is incomplete on a connection only while its writer is between the two buffers of its vectored write,
+\* or the connection has been closed because that write failed (or died with the process)
+C08_WholePackets == \A c \in DOMAIN st.conns : (st.conns[c].tail /\ ~st.conns[c].dead /\ ~st.conns[c].closed)
+                        => \E p \in Writers : st.pc[p] \in {"wn.write2", "lw.write"} /\ st.loc[p].val = c
 C12_Signals == ~(st.online /\ st.offline)
 \* C04 (design): an exactly-once message whose marker is saved is not returned again before PUBREL
 Returned(tag) == Cardinality({i \in DOMAIN st.rets["rd"] : st.rets["rd"][i].err = "msg" /\ st.rets["rd"][i].m = tag})
 C07_AckedOnlyIfReturned == \A c \in DOMAIN st.conns : \A i \in DOMAIN st.conns[c].c2b :
    LET p == st.conns[c].c2b[i] IN
    p.t \in {"PUBACK", "PUBREC"} => \E j \in DOMAIN st.broker.out : st.broker.out[j].id = p.id
+\* C11: a PINGRESP is never handed to a Ping that has not submitted its PINGREQ
+C11_PongIsOwn == ~st.strayPong
 C17_Bounded == Len(st.queue[1]) <= AMax /\ Len(st.queue[2]) <= EMax
 C18_ConnectFirst == \A c \in DOMAIN st.conns : AllPk(c) # <<>> => AllPk(c)[1].t = "CONNECT"
+\* C02: whatever the instant, AdoptSession would rebuild exactly what the live client holds: the pending transfers in
+\* their order, each at its stage, the counters modulo the identifier space, without a warning (nothing was damaged)
+C02_AdoptMatchesLive ==
+  (st.damaged = 0) =>
+  LET a == Adopt(st.store) IN
+  /\ a.nwarn = 0
+  /\ st.seqSem[1] # "closed" => a.queue[1] = st.queue[1]     \* (a closed client has handed its queues back)
+  /\ st.seqSem[2] # "closed" => a.queue[2] = st.queue[2]
+  /\ st.queue[1] # <<>> => (a.acked = st.acked % IdMod /\ a.acceptN[1] - a.acked = Len(st.queue[1]))
+  /\ st.queue[2] # <<>> => (a.completed = st.completed % IdMod /\ a.received - a.completed = st.received - st.completed
+                            /\ a.acceptN[2] - a.completed = Len(st.queue[2]))
+C02_NoWarnings == st.damaged = 0 => st.warn = 0
+\* C16: every record the resend needs exists: a damaged store never leaves a client whose every connect fails
+C16_ResendFindsRecords == st.pc["rd"] = "rs.load" => Has(st.store, KeyOf(st.loc["rd"].lvl, st.loc["rd"].seqNo))
+\* C16: the pending transfers are records that were genuinely saved, in their original relative order
+\* C16: a new publish never takes the key of a record that is still pending
+C16_NoKeyCollision == \A p \in Writers : st.pc[p] = "q.save" =>
+   LET l == LevelOf(Ops(p)[st.loc[p].op].m) IN ~Has(st.store, KeyOf(l, st.acceptN[l]))
+C16_PendingAreStored == \A l \in 1..2 : \A i \in DOMAIN st.queue[l] : \E k \in DOMAIN st.store : ~IsMark(k) /\ st.store[k].tag = st.queue[l][i]
 TypeOK == st.writeSem \in {PENDING, DOWN, HELD, CLOSED} \cup (1..MaxConns) /\ st.connSem \in {NILCONN, HELD, CLOSED} \cup (1..MaxConns)
 =============================================================================
